@@ -31,7 +31,13 @@ fn seqs<T: Clone>(alpha: &[T], max: usize) -> Vec<Vec<T>> {
     all
 }
 
-const TEMPLATES: [&str; 14] = [
+const TEMPLATES: [&str; 18] = [
+    // every documented key once, fixed-width and truncating variants
+    "{spinner}{prefix}{msg}{pos}{human_pos}{len}{human_len}{percent}{percent_precise}{bytes}{total_bytes}{decimal_bytes}{decimal_total_bytes}{binary_bytes}{binary_total_bytes}",
+    "{elapsed_precise}{elapsed}{per_sec}{bytes_per_sec}{decimal_bytes_per_sec}{binary_bytes_per_sec}{eta_precise}{eta}{duration_precise}{duration}{human_pos:>3!}{human_len:^40}",
+    // a wide element on one line, other lines before and after it
+    "{wide_bar}\n{pos}/{len} {msg}",
+    "{prefix}|\n{wide_msg}\n{spinner} x",
     "{msg:>4!}|{wide_msg}",
     "{eta_precise} {duration} {wide_msg:^}",
     "{spinner} {msg}",
@@ -215,7 +221,7 @@ pub fn meta(tier: Tier) -> Meta {
     let k = if tier == Tier::Quick { 3 } else { 5 };
     Meta {
         level: "exploration",
-        rule: format!("every builder argument: tick_chars over strings of <= 3 chars from {{a, 好, ZWSP}}, tick_strings over <= 3 strings from {{\"\", a, ab, 好}}, progress_chars over <= {k} clusters from {{a, █, 好, ZWSP, e+combining acute}}, each on 12 templates; every accepted style is asked for tick strings at 0,1,n-1,n,n+1,u64::MAX and drawn at widths 1,5,80 x 7 position/length pairs x 3 statuses after up to 2n+1 ticks, and installed with set_style on a live bar (and replaced by another spinner) after 1..25 ticks under the other style, then redrawn without a tick; oracle: explicit rejection at build time XOR never panics; distinct = distinct rendered shapes / rejection messages; non-trivial = accepted style"),
+        rule: format!("every builder argument: tick_chars over strings of <= 3 chars from {{a, 好, ZWSP}}, tick_strings over <= 3 strings from {{\"\", a, ab, 好}}, progress_chars over <= {k} clusters from {{a, █, 好, ZWSP, e+combining acute}}, each on 18 templates (every documented key occurs; wide elements with further template lines around them); every accepted style is asked for tick strings at 0,1,n-1,n,n+1,u64::MAX and drawn at widths 1,5,80 x 7 position/length pairs x 3 statuses after up to 2n+1 ticks, and installed with set_style on a live bar (and replaced by another spinner) after 1..25 ticks under the other style, then redrawn without a tick; oracle: explicit rejection at build time XOR never panics; distinct = distinct rendered shapes / rejection messages; non-trivial = accepted style"),
         assumptions: vec!["a panic message is 'explicit' unless it is an arithmetic, index/slice or unwrap message".into()],
         bounds: json!({"max_clusters": k}),
         exhaustive: true,
